@@ -67,7 +67,7 @@ Definition check_installed (c : installed_case) : list string :=
       tag_if (negb (res_eqb (list_eqb rec_eqb) (parse_installed dec text) (nc_rb c))) "mismatch:installed-reader" ++
       installed_rt_tags (nc_pkg c) (nc_files c) (nc_rb c) ++
       sort_tags (nc_files c) (nc_sorted c) ++
-      attribute_dup_dir (nc_files c) (installed_fixpoint_tags text (nc_rw c))
+      attribute_two_slashes (nc_files c) (attribute_dup_dir (nc_files c) (installed_fixpoint_tags text (nc_rw c)))
   | _ => []       (* the writer refused (undecodable per-file checksum): nothing was written *)
   end.
 
